@@ -104,3 +104,57 @@ Proof.
 Qed.
 
 Goal True. idtac "THEOREM C05_third_order_real_partial". Abort. Print Assumptions C05_third_order_real_partial.
+
+(* THE SAME FOR COMPLEX lam (wind present), no smallness condition: the model's shooting solution
+   on height-independent layers (instance ROps = Coquelicot's C, for which Laws is proved) versus
+   exactly the expressions of the analytic branch, at every node k of ANY grid with layer
+   thicknesses 0 <= dz_j <= dmax: |Q_k - Qa| <= |qh| e^B B and |P_k - Pa| <= |qh| e^B B / |Kz lam|
+   with B = |lam|^4/24 * h_k * dmax^3  (h_k the height of node k; Re lam >= 0 is
+   ROps_eigval_decays).  Sharp local constant: |exp z - E3 z| <= |z|^4/24 for Re z <= 0. *)
+From BL Require Proofs.ComplexOrder.
+From BL Require Import Base.ROps.
+Theorem C05_third_order : forall (Kx Ky u v Kz lx ly qh : Coquelicot.Complex.C) (dzs : list R) (dmax : R),
+  (forall d, In d dzs -> (0 <= d <= dmax)%R) ->
+  let lam := eigval ROps Kx Ky u v Kz lx ly in
+  let layers := const_layers ROps Kx Ky u v Kz (map Coquelicot.Complex.RtoC dzs) in
+  let y1 := final ROps lx ly layers (Coquelicot.Complex.RtoC 1, Coquelicot.Complex.RtoC 0) in
+  let y2 := final ROps lx ly layers (Coquelicot.Complex.RtoC 0, qh) in
+  Kz <> Coquelicot.Complex.RtoC 0 -> lam <> Coquelicot.Complex.RtoC 0 ->
+  Coquelicot.Complex.Cminus (snd y1) (Coquelicot.Complex.Cmult (Coquelicot.Complex.Cmult Kz lam) (fst y1)) <> Coquelicot.Complex.RtoC 0 ->
+  let al := alpha ROps Kz lam (fst y1) (snd y1) (fst y2) (snd y2) in
+  forall k, (k <= length dzs)%nat ->
+  let h := ComplexOrder.height dzs k in
+  let Qa := Coquelicot.Complex.Cmult qh (Cexp (Coquelicot.Complex.Cmult (Coquelicot.Complex.Copp lam) (Coquelicot.Complex.RtoC h))) in
+  let Pa := Coquelicot.Complex.Cdiv (Coquelicot.Complex.Cmult Qa (Coquelicot.Complex.Cdiv (Coquelicot.Complex.RtoC 1) Kz)) lam in
+  let B := (Coquelicot.Complex.Cmod lam ^ 4 / 24 * h * dmax ^ 3)%R in
+  (Coquelicot.Complex.Cmod (Coquelicot.Complex.Cminus (snd (shoot_traj ROps lx ly layers al qh k)) Qa)
+     <= Coquelicot.Complex.Cmod qh * (exp B * B))%R /\
+  (Coquelicot.Complex.Cmod (Coquelicot.Complex.Cminus (fst (shoot_traj ROps lx ly layers al qh k)) Pa)
+     <= Coquelicot.Complex.Cmod qh * (exp B * B) / Coquelicot.Complex.Cmod (Coquelicot.Complex.Cmult Kz lam))%R.
+Proof. exact ComplexOrder.shoot_minus_analytic_complex. Qed.
+
+(* uniform grid dz = H/n: error at the top <= C/n^3 with C independent of n, ratio exactly 8 on
+   halving, and convergence to the analytic value as n -> infinity *)
+Theorem C05_third_order_uniform :
+  (forall (Kx Ky u v Kz lx ly qh : Coquelicot.Complex.C) (H : R) (n : nat),
+    (0 <= H)%R -> (1 <= n)%nat ->
+    let lam := eigval ROps Kx Ky u v Kz lx ly in
+    let dzs := repeat (H / INR n)%R n in
+    let B1 := (Coquelicot.Complex.Cmod lam ^ 4 * H ^ 4 / 24)%R in
+    (Coquelicot.Complex.Cmod (Coquelicot.Complex.Cminus
+        (Coquelicot.Complex.Cmult qh (prodE3 ROps lam (map Coquelicot.Complex.RtoC dzs) n))
+        (Coquelicot.Complex.Cmult qh (Cexp (Coquelicot.Complex.Copp (Coquelicot.Complex.Cmult lam (Coquelicot.Complex.RtoC H))))))
+     <= Coquelicot.Complex.Cmod qh * (exp B1 * B1) / INR n ^ 3)%R) /\
+  (forall (c : R) (n : nat), (1 <= n)%nat -> (c / INR n ^ 3 = 8 * (c / INR (2 * n) ^ 3))%R) /\
+  (forall (Kx Ky u v Kz lx ly qh : Coquelicot.Complex.C) (H : R), (0 <= H)%R ->
+    let lam := eigval ROps Kx Ky u v Kz lx ly in
+    Coquelicot.Lim_seq.is_lim_seq (fun n => Coquelicot.Complex.Cmod (Coquelicot.Complex.Cminus
+        (Coquelicot.Complex.Cmult qh (prodE3 ROps lam (map Coquelicot.Complex.RtoC (repeat (H / INR (S n))%R (S n))) (S n)))
+        (Coquelicot.Complex.Cmult qh (Cexp (Coquelicot.Complex.Copp (Coquelicot.Complex.Cmult lam (Coquelicot.Complex.RtoC H))))))) (Coquelicot.Rbar.Finite 0)).
+Proof.
+  exact (conj ComplexOrder.uniform_grid_third_order_complex
+        (conj ComplexOrder.uniform_bound_ratio ComplexOrder.uniform_grid_converges_complex)).
+Qed.
+
+Goal True. idtac "THEOREM C05_third_order". Abort. Print Assumptions C05_third_order.
+Goal True. idtac "THEOREM C05_third_order_uniform". Abort. Print Assumptions C05_third_order_uniform.
